@@ -23,10 +23,14 @@ PosLists(n) == UNION {[1..k -> 0..(n - 1)] : k \in 1..2} \cup {<<0, n - 1, n \di
 Rems == {2 ^ r - 1 : r \in 0..8} \cup {2, 4, 5, 6, 12, 100, 200, 254}
 SchedCases == {[ln |-> ln, lb |-> lb, f |-> f, rem |-> rem] : ln \in 0..MaxLn, lb \in 1..7, f \in Folds, rem \in Rems}
 StratCases == {[s |-> s] : s \in Strategies}
+\* degree bounds whose number of coefficients is not a power of two: k * 2^j coefficients
+RemVariant == IOEnv.FRI_REMCHECK
+BoundCases == {[m |-> k * 2 ^ j, lb |-> lb, f |-> f, rem |-> rem] : k \in {3, 5, 6, 7, 9, 11}, j \in 0..(MaxLn - 2), lb \in 1..4, f \in Folds, rem \in {0, 1, 2, 3, 5, 7, 15, 31}}
 
 Init == \/ /\ kind = "layout" /\ \E ln \in 3..5, f \in Folds : 2 ^ ln \div f >= 2 /\ \E ps \in PosLists(2 ^ ln) : c = [n |-> 2 ^ ln, f |-> f, ps |-> ps]
         \/ /\ kind = "sched" /\ c \in SchedCases
         \/ /\ kind = "strategy" /\ c \in StratCases
+        \/ /\ kind = "bound" /\ c \in BoundCases
 Next == UNCHANGED vars
 
 \* the honest prover's opened rows for the folded positions, with evaluation p represented by the number p itself
@@ -42,6 +46,8 @@ SchedInv == kind = "sched" =>
 SchedInvOldDomain == kind = "sched" =>
     LET d == 2 ^ (c.ln + c.lb) IN WellFormed(d, c.f, 2 ^ c.lb, c.rem) => GuardsOKWith(d, c.f, 2 ^ c.lb, c.rem, FALSE)
 SoundInv == kind = "strategy" => Sound(c.s, Chk)
+BoundCompleteInv == kind = "bound" => BoundComplete(RemVariant, c.m, c.f, 2 ^ c.lb, c.rem)
+BoundSoundInv == kind = "bound" => BoundSound(RemVariant, c.m, c.f, 2 ^ c.lb, c.rem)
 
 Emit == CASE kind = "sched" ->
                LET d == 2 ^ (c.ln + c.lb) IN
@@ -50,6 +56,11 @@ Emit == CASE kind = "sched" ->
                                      layers |-> NumLayers(d, c.f, 2 ^ c.lb, c.rem),
                                      \* the last layer is at most half of the largest admissible remainder domain (the folding "jumps over" it)
                                      jump |-> 2 * RemDomain(d, c.f, 2 ^ c.lb, c.rem) <= MaxRemainderSize(2 ^ c.lb, c.rem)]))
+          [] kind = "bound" ->
+               LET b == 2 ^ c.lb  d == CoefDomain(c.m, b) IN
+               (InBoundClaim(c.m, c.f, b, c.rem) /\ d >= 8 /\ d <= 2 ^ (IF MaxLn > 10 THEN 14 ELSE 11))
+                   => PrintT(ToJson([kind |-> "bound", m |-> c.m, lb |-> c.lb, fold |-> c.f, rem |-> c.rem, layers |-> NumLayers(d, c.f, b, c.rem),
+                                     excess |-> NextPow2F(c.m) - c.m]))
           [] kind = "strategy" -> PrintT(ToJson([kind |-> "strategy", s |-> c.s, accepts |-> Accepts(c.s, Chk)]))
           [] kind = "layout" -> PrintT(ToJson([kind |-> "layout", n |-> c.n, f |-> c.f, ps |-> c.ps,
                                               folded |-> FoldPositions(c.ps, c.n, c.f)]))
